@@ -538,6 +538,20 @@ def main():
             if case_cache and not args.replay and not hard_errors:
                 os.makedirs(case_cache, exist_ok=True)
                 json.dump(all_cases, open(os.path.join(case_cache, "%s_%s_%s_%d.json" % (famname, fam.get("param", ""), tier, seed)), "w"))
+            # an input on which the implementation failed outright (panic, a call that never returns, a bucket that
+            # cannot be reopened): the input is the replay
+            fatal_cases = [c for c in all_cases if c.get("fatal")]
+            for c in fatal_cases[:3]:
+                log("implementation failed outright:", c["fatal"])
+                p = write_replay("%s_fatal_%d" % (famname, c.get("index", 0)),
+                                 {"property": prop, "family": famname, "kind": "fatal", "seed": seed, "tier": tier, "input": c["input"],
+                                  "verdict": "the implementation failed outright on this input: " + c["fatal"],
+                                  "replay": "bin/check %s --replay <this file>" % prop})
+                violations.append((p, ""))
+            if fatal_cases:
+                # the harness process stops after such a case (exit 4); that is not a separate error
+                hard_errors = [he for he in hard_errors if "harness error" in he]
+            all_cases = [c for c in all_cases if c.get("coq_in") is not None and c.get("coq_obs") is not None]
             for he in hard_errors:
                 log("harness error:", he)
                 p = write_replay("harness_%s" % famname, {"property": prop, "kind": "correspondence", "family": famname,
